@@ -727,4 +727,11 @@ def run(db, chk):
             chk.ob("C14-D2c", "[%s] erode() composition on %dx%d" % (uname, nr, nc), not bad, where=er.ploc,
                    function=er.bn, construct="compose", detail="; ".join(bad[:3])[:400], extra={"unit": uname})
 
+    if chk.want("C14-D6"):
+        from .persist import sibling_setters
+        from ..effects import Effects
+        chk.rule("C14-D6", "the overloads of set_k_coef agree on the state they replace: nothing that erode() reads "
+                 "and one overload updates is left describing the previous diffusivity by the other overload",
+                 min_instances=2)
+        sibling_setters(db, Effects(db), chk, "C14-D6", ADI)
     chk.count_scenarios(n_sc, True)
